@@ -265,7 +265,10 @@ func c11Jobs(tier string) []Job {
 			fs = append(fs, fmt.Sprintf("%s/data/shard-%d", backupDir, i))
 		}
 		if c.delta {
-			fs = append(fs, backupDir+"/delta/files.json", backupDir+"/delta/checksums.json", backupDir+"/delta/shard-0")
+			fs = append(fs, backupDir+"/delta/files.json", backupDir+"/delta/checksums.json")
+			for i := 0; i < c.cfg.writers; i++ {
+				fs = append(fs, fmt.Sprintf("%s/delta/shard-%d", backupDir, i))
+			}
 		}
 		sort.Strings(fs)
 		return fs
@@ -275,7 +278,7 @@ func c11Jobs(tier string) []Job {
 		concs := []int{1, 2}
 		if tier == "thorough" {
 			concs = []int{1, 2, 3}
-		} else if ci == 1 {
+		} else if ci == 1 || ci == 3 {
 			concs = []int{1}
 		}
 		for _, conc := range concs {
